@@ -18,6 +18,8 @@ Record case := mkCase {
 
 (** run-length helper for long inputs: [rep n b] = n copies of b *)
 Definition rep (n : N) (b : byte) : list byte := N.iter n (cons b) [].
+(** the same for schedules: [intrs n] = n consecutive reads failing with ErrorKind::Interrupted *)
+Definition intrs (n : N) : list event := N.iter n (cons Intr) [].
 
 Definition bytes_eqb := leqb Z.eqb.
 Definition ity_eqb (a b : ity) := (bits a =? bits b) && Bool.eqb (sgn a) (sgn b).
